@@ -424,3 +424,156 @@ func (a *Adversary) AttackBadBlock(maxHeights int, mut func(b *types.Block, ref 
 	}
 	return false, 0, id
 }
+
+// AttackSplitLocks stages, with one Byzantine validator Z among four equal ones,
+// two honest validators locked on different blocks in different rounds:
+// round 0: A sees the polka for X and locks it, the others only see +2/3 of
+// anything (Z prevotes nil) and precommit nil; round 1: a new block X' is
+// proposed, Z's prevote for X' reaches only B, which locks X'; everybody moves on
+// to round 2, and only then the round-1 polka for X' reaches A (a polka from a
+// round that A has already left, later than its lock). Returns whether the
+// situation could be staged. Progress afterwards needs A to give up its lock.
+func (a *Adversary) AttackSplitLocks() bool {
+	n := a.N
+	if len(a.Byz) != 1 {
+		return false
+	}
+	Z := a.Byz[0]
+	h, ref, ok := a.syncNewHeight(8000)
+	if !ok {
+		return false
+	}
+	hon := a.Honest()
+	if len(hon) != 3 {
+		return false
+	}
+	for _, i := range hon {
+		n.FireStep(i, pbft.RoundStepNewHeight)
+	}
+	rs := ref.CS.VerifRoundState()
+	if rs.Height != h || rs.Round != 0 {
+		return false
+	}
+	vs := rs.Validators.Copy()
+	if vs.Size() != 4 || n.ValIndex(vs, Z) < 0 {
+		return false
+	}
+	for _, v := range vs.Validators {
+		if v.VotingPower != vs.Validators[0].VotingPower {
+			return false
+		}
+	}
+	p0 := a.nodeByAddr(vs.Proposer().Address)
+	vs1 := vs.Copy()
+	vs1.IncrementAccum(1)
+	p1 := a.nodeByAddr(vs1.Proposer().Address)
+	if p0 == Z {
+		_, px := a.MakeBlock(ref, Z, []types.Tx{types.Tx(fmt.Sprintf("split-X-%d", h))})
+		if px == nil {
+			return false
+		}
+		a.publishProposal(Z, h, 0, px, -1, types.BlockID{})
+	}
+	a.track()
+	// A: an honest validator that does not propose in round 1; B: the honest one that will lock X'
+	var A, B, C = -1, -1, -1
+	for _, i := range hon {
+		if i != p1 && A < 0 {
+			A = i
+		}
+	}
+	for _, i := range hon {
+		if i == A {
+			continue
+		}
+		if B < 0 && (p1 == Z || i == p1) {
+			B = i
+		} else if C < 0 {
+			C = i
+		}
+	}
+	if A < 0 || B < 0 || C < 0 {
+		return false
+	}
+	others := []int{B, C}
+	// round 0: proposal and parts to every honest node; they prevote X
+	for pass := 0; pass < 3; pass++ {
+		for _, i := range hon {
+			n.DeliverMatching(i, func(e *Env) bool { return e.H == h && e.R == 0 && (e.Kind == "proposal" || e.Kind == "part") })
+		}
+	}
+	nilID := types.BlockID{}
+	n.Publish(Z, true, &pbft.VoteMessage{Vote: n.SignVote(vs, Z, h, 0, types.VoteTypePrevote, nilID)})
+	// A sees every honest prevote: polka, lock
+	n.DeliverMatching(A, func(e *Env) bool { return e.H == h && e.R == 0 && e.Kind == "prevote" && !e.Byz })
+	ra := n.Nodes[A].CS.VerifRoundState()
+	if ra.LockedBlock == nil || ra.LockedRound != 0 {
+		a.FairSuffix(h, 8000)
+		return false
+	}
+	X := ra.LockedBlock.Hash()
+	// the others see each other's prevotes and Z's nil: +2/3 of anything, no polka
+	for _, i := range others {
+		n.DeliverMatching(i, func(e *Env) bool { return e.H == h && e.R == 0 && e.Kind == "prevote" && e.From != A })
+		n.FireStep(i, pbft.RoundStepPrevoteWait)
+	}
+	n.Publish(Z, true, &pbft.VoteMessage{Vote: n.SignVote(vs, Z, h, 0, types.VoteTypePrecommit, nilID)})
+	for _, i := range hon {
+		n.DeliverMatching(i, func(e *Env) bool { return e.H == h && e.R == 0 && e.Kind == "precommit" })
+		n.FireStep(i, pbft.RoundStepPrecommitWait)
+	}
+	for _, i := range hon {
+		if r := n.Nodes[i].CS.VerifRoundState(); r.Height != h || r.Round != 1 {
+			a.FairSuffix(h, 8000)
+			return false
+		}
+	}
+	// round 1: X' (by the honest proposer B, or by Z)
+	if p1 == Z {
+		_, py := a.MakeBlock(n.Nodes[B], Z, []types.Tx{types.Tx(fmt.Sprintf("split-Y-%d", h))})
+		if py == nil {
+			a.FairSuffix(h, 8000)
+			return false
+		}
+		a.publishProposal(Z, h, 1, py, -1, types.BlockID{})
+	}
+	for pass := 0; pass < 3; pass++ {
+		for _, i := range hon {
+			n.DeliverMatching(i, func(e *Env) bool { return e.H == h && e.R == 1 && (e.Kind == "proposal" || e.Kind == "part") })
+		}
+	}
+	rb := n.Nodes[B].CS.VerifRoundState()
+	if rb.ProposalBlock == nil || bytes.Equal(rb.ProposalBlock.Hash(), X) {
+		a.FairSuffix(h, 8000)
+		return false
+	}
+	Y := types.BlockID{Hash: rb.ProposalBlock.Hash(), PartsHeader: rb.ProposalBlockParts.Header()}
+	zPrevote := n.Publish(Z, true, &pbft.VoteMessage{Vote: n.SignVote(vs1, Z, h, 1, types.VoteTypePrevote, Y)})
+	// B: C's and Z's prevotes for X' -> polka, lock in round 1
+	n.DeliverMatching(B, func(e *Env) bool { return e.H == h && e.R == 1 && e.Kind == "prevote" && (e.From == C || e.ID == zPrevote.ID) })
+	// A and C: the three honest prevotes (X, X', X'): +2/3 of anything, no polka
+	for _, i := range []int{A, C} {
+		n.DeliverMatching(i, func(e *Env) bool { return e.H == h && e.R == 1 && e.Kind == "prevote" && !e.Byz })
+		n.FireStep(i, pbft.RoundStepPrevoteWait)
+	}
+	rb = n.Nodes[B].CS.VerifRoundState()
+	ra = n.Nodes[A].CS.VerifRoundState()
+	if rb.LockedBlock == nil || rb.LockedRound != 1 || !bytes.Equal(rb.LockedBlock.Hash(), Y.Hash) || ra.LockedBlock == nil || !bytes.Equal(ra.LockedBlock.Hash(), X) {
+		a.FairSuffix(h, 8000)
+		return false
+	}
+	n.Publish(Z, true, &pbft.VoteMessage{Vote: n.SignVote(vs1, Z, h, 1, types.VoteTypePrecommit, nilID)})
+	for _, i := range hon {
+		n.DeliverMatching(i, func(e *Env) bool { return e.H == h && e.R == 1 && e.Kind == "precommit" })
+		n.FireStep(i, pbft.RoundStepPrecommitWait)
+	}
+	ra = n.Nodes[A].CS.VerifRoundState()
+	if ra.Height != h || ra.Round < 2 || ra.LockedBlock == nil {
+		a.FairSuffix(h, 8000)
+		return false
+	}
+	// only now the round-1 polka for X' reaches A
+	n.DeliverMatching(A, func(e *Env) bool { return e.ID == zPrevote.ID })
+	a.track()
+	return true
+}
